@@ -644,12 +644,16 @@ class Subscription(BaseSubscription):
         new_filters = []
         for filter_obj in filters:
             subwhere = []
+            bound = set(params)
             try:
                 filter_obj = self.evaluate_filter(filter_obj, subwhere, params)
             except ValueError:
                 self.log.debug("bad query %s", filter_obj)
                 filter_obj = NostrQuery()
                 subwhere = []
+                # forget what the refused filter had bound already
+                for name in set(params) - bound:
+                    del params[name]
             if subwhere:
                 where = " AND ".join(subwhere)
             else:
